@@ -130,6 +130,15 @@ class FiniteSet(T):
         return f"FiniteSet({self.elem!r},{self.lo}..{self.hi})"
 
 
+class DictEntries(T):
+    """A dict with lo..hi entries (forks over the sizes), pairwise distinct fresh keys, insertion order = index."""
+    def __init__(self, key: T, value: T, lo: int, hi: int) -> None:
+        self.key, self.value, self.lo, self.hi = key, value, lo, hi
+
+    def __repr__(self) -> str:
+        return f"DictEntries({self.key!r},{self.value!r},{self.lo}..{self.hi})"
+
+
 class DictOf(T):
     """A dict: key sequence (duplicate free, insertion order) + value map."""
     def __init__(self, key: T, value: T, distinct: bool = False, total: bool = False) -> None:
